@@ -127,8 +127,8 @@ def relApp (key : String) (i : CItem) (a : CApp) : CApp :=
     -- the last placeholder is gone: progress the application
     let st :=
       if isZero (some aph) &&
-         ((a.state == "Completing" && !a.stateTimer) || a.state == "Failing" || a.state == "Resuming" ||
-          (isZero (some a.pending) && isZero (some a.allocated))) then
+         ((a.state == "Completing" && !a.stateTimer) || (a.state == "Failing" && isZero (some a.allocated)) || a.state == "Resuming" ||
+          (isZero (some a.pending) && isZero (some a.allocated) && a.state != "Failing")) then
         (if a.state == "Failing" then fireState a.state .fail
          else if a.state == "Resuming" then fireState a.state .run
          else fireState a.state .complete)
@@ -139,8 +139,13 @@ def relApp (key : String) (i : CItem) (a : CApp) : CApp :=
              log := if st != a.state then a.log ++ [st] else a.log }
   else
     let alloc := prune (subX a.allocated i.res)
-    let st := if isZero (some a.pending) && isZero (some alloc) then fireState a.state .complete else a.state
-    { a with items := items, allocated := alloc, state := st, log := if st != a.state then a.log ++ [st] else a.log }
+    -- (the last real allocation of a failing application: it has failed once the placeholders are gone as well)
+    let st := if isZero (some a.pending) && isZero (some alloc) then
+        (if a.state == "Failing" then (if isZero (some a.allocatedPh) then fireState a.state .fail else a.state)
+         else fireState a.state .complete)
+      else a.state
+    { a with items := items, allocated := alloc, state := st, live := !(st == "Completed" || st == "Failed"),
+             log := if st != a.state then a.log ++ [st] else a.log }
 
 def releaseKey (s : Core) (app key : String) : Core :=
   match s.findApp app with
